@@ -244,7 +244,7 @@ def verify_function(key, table, fields, monitor=None, timeout_ms=None, cex_fn=No
             if props and "assumed" in props:
                 continue        # stated, used by callers, listed as an assumption in the evidence; not proved
             goal = fn_ens(ctx)
-            obligations.append(Obligation("%s/post[%s]" % (key, label), s.pc, goal, s.sig, "post", label,
+            obligations.append(Obligation("%s/post[%s]" % (key, label), s.hyps(), goal, s.sig, "post", label,
                                           props or con.props, {"outcome": out.kind}))
         # frame: heap fields
         allowed = {}
@@ -268,19 +268,22 @@ def verify_function(key, table, fields, monitor=None, timeout_ms=None, cex_fn=No
             if unrestricted:
                 continue
             goal = z3.Implies(z3.And(*excl), z3.Select(arr, r) == z3.Select(base, r))
-            obligations.append(Obligation("%s/frame[%s]" % (key, f), s.pc, goal, s.sig, "frame", f, con.props))
+            obligations.append(Obligation("%s/frame[%s]" % (key, f), s.hyps(), goal, s.sig, "frame", f, con.props))
         # frame: parameter containers and ghost state
         mod_params = {m.name for m in con.modifies if isinstance(m, Param)}
         for pname in s.written_params:
             if pname not in mod_params and pname in args and z3.is_expr(args[pname]):
                 goal = ex.lift(s.locals.get(pname)) == args[pname] if pname in s.locals else z3.BoolVal(True)
-                obligations.append(Obligation("%s/frame[param %s]" % (key, pname), s.pc, goal, s.sig, "frame",
+                obligations.append(Obligation("%s/frame[param %s]" % (key, pname), s.hyps(), goal, s.sig, "frame",
                                               "param " + pname, con.props))
         mod_ghost = {m.name for m in con.modifies if isinstance(m, Ghost)}
         for g, val in s.ghost.items():
             if g not in mod_ghost and not val.eq(g_old(g)):
-                obligations.append(Obligation("%s/frame[ghost %s]" % (key, g), s.pc, val == g_old(g), s.sig, "frame",
+                obligations.append(Obligation("%s/frame[ghost %s]" % (key, g), s.hyps(), val == g_old(g), s.sig, "frame",
                                               "ghost " + g, con.props))
+    for label, fn_lem, props in getattr(con, "lemmas", []) or []:
+        lh, lg = fn_lem()
+        obligations.append(Obligation("%s/lemma[%s]" % (key, label), lh, lg, [], "lemma", label, props))
     # discharge: the post clauses of one path are first tried as a single conjunction
     groups = {}
     for ob in obligations:
@@ -288,6 +291,7 @@ def verify_function(key, table, fields, monitor=None, timeout_ms=None, cex_fn=No
             groups.setdefault(id(ob.hyps[0]) if False else tuple(ob.sig) + (ob.extra.get("outcome"), len(ob.hyps)), []).append(ob)
     merged_ok = set()
     for key_, obs in groups.items():
+        obs = [o for o in obs if not solve._stringy(o.goal)]     # string-heavy clauses are checked on their own
         if len(obs) < 3:
             continue
         same = all(len(o.hyps) == len(obs[0].hyps) for o in obs)
@@ -298,9 +302,16 @@ def verify_function(key, table, fields, monitor=None, timeout_ms=None, cex_fn=No
             for o in obs:
                 merged_ok.add(id(o))
                 o._merged = solve.Verdict("discharged", v.backend, v.secs / len(obs))
+    import os as _os
+    t_dis = time.time()
+    dis_budget = float(_os.environ.get("VERIF_DISCHARGE_BUDGET_S", "600"))
+    res.exec_secs = round(t_dis - t0, 2)
     for ob in obligations:
         if id(ob) in merged_ok:
             res.obligations.append(ObResult(ob, ob._merged))
+            continue
+        if time.time() - t_dis > dis_budget:
+            res.obligations.append(ObResult(ob, solve.Verdict("unknown", "-", 0.0, None, "discharge budget of the function exhausted")))
             continue
         v = solve.check_valid(ob.hyps, ob.goal, timeout_ms)
         if v.status != "discharged" and z3.is_and(ob.goal) and ob.kind in ("inv-entry", "inv-preserve", "post") \
